@@ -5,24 +5,22 @@
     /repo/src/bp/encoding/blocks.py [CanonicalBlock.ensure_block_type_specific_data].
     Definitions only; proofs in [Proofs/BpFwdProofs.v], statements in [Props/C11.v].
 
-    The model follows the CODE after commit df72a19 (hop-count BTSD regenerated), probed 2026-09-23:
+    The model follows the CODE after the fix commits df72a19 (hop-count BTSD regenerated), ed76b97 (an
+    assigned block number is stored on the block instance, no longer in scapy's class-level
+    overloaded-fields dict: forwarding has no state across bundles) and 1355258 (every received Previous
+    Node / Bundle Age block is removed), probed 2026-09-23:
 
     - a block decoded from the wire keeps its BTSD octets; only the hop-count blocks whose BTSD parsed have
       their BTSD deleted and regenerated (shortest-form [limit, count+1]) - [bump_hop];
     - [_do_fwd] looks blocks up by the scapy payload CLASS that [post_dissect] managed to attach, not by
       type code: a type-6/7/10 block whose BTSD did not dissect is invisible to it and stays as it is
       ([impl_prev_parses], [impl_age_parses], [hop_view]; an EMPTY BTSD "dissects" to a default payload:
-      such a type-6/7 block is treated as parsed, such a type-10 block makes [count += 1] raise);
-    - "for blk in ctr.block_type(X): ctr.remove_block(blk)" removes from the list it iterates over, so only
-      the 1st, 3rd, 5th ... block of that class is removed ([remove_alt]);
+      such a type-6/7 block is treated as parsed, such a type-10 block makes [count += 1] raise, the
+      bundle is then deleted with reason NO_ROUTE and nothing is transmitted - [hop_raises]);
     - [add_block] inserts before the LAST block whatever its type ([insert_bl]; appended to an empty list);
-    - block numbers of the inserted blocks: [_fix_blk_num] stores the number it obtained from
-      [get_block_num] (counter starts at 1, incremented first, skips numbers in use, 0 is always in use)
-      in [blk.overloaded_fields], which for [CanonicalBlock()/PreviousNodeBlock(..)] IS the class-level dict
-      created by [bind_layers] - the number therefore sticks for the life of the process ([fwd_state]); a
-      later inserted block arrives with that number already set, [add_block] raises if it is in use
-      ("'str' object has no attribute 'foramt'"), [_do_fwd] records delete/NO_ROUTE and nothing is
-      transmitted ([alloc] = None);
+    - block numbers of the inserted blocks come from [get_block_num]: the container's counter starts at 1,
+      is incremented first and skips numbers in use (0 is always in use) - [next_free]; the Previous Node
+      block is numbered while received Bundle Age blocks are still in the container;
     - the Bundle Age block is added iff the RECEIVED creation time is not 0, age = now - creation as a
       Python int: negative when the local clock is behind ([age_item] = CBOR negative integer);
     - [send_bundle] calls [_apply_primary] also for forwarded bundles: a zero creation time is replaced by
@@ -88,14 +86,10 @@ Definition bump_hop (b : cblock) : cblock :=
 
 (** * Container operations *)
 
-(** removal while iterating: of the blocks satisfying [p], the 1st, 3rd, ... go *)
-Fixpoint remove_alt (p : cblock -> bool) (take : bool) (l : list cblock) : list cblock :=
-  match l with
-  | [] => []
-  | x :: t =>
-      if p x then (if take then remove_alt p false t else x :: remove_alt p true t)
-      else x :: remove_alt p take t
-  end.
+(** "for blk in list(ctr.block_type(X)): ctr.remove_block(blk)": every block the implementation
+    recognises as an X goes *)
+Definition remove_all (p : cblock -> bool) (l : list cblock) : list cblock :=
+  filter (fun x => negb (p x)) l.
 
 (** [list.insert(-1, x)] *)
 Fixpoint insert_bl (x : cblock) (l : list cblock) : list cblock :=
@@ -119,44 +113,24 @@ Fixpoint next_free (fuel : nat) (c : N) (used : list N) : N :=
 (** keys of [BundleContainer._block_num]: 0 (the bundle's scapy payload) and every block number *)
 Definition used_nums (l : list cblock) : list N := 0 :: map bnum l.
 
-(** number for an inserted block: (number, counter afterwards, class-level cache afterwards) *)
-Definition alloc (cached : option N) (cnt : N) (used : list N) : option (N * N * option N) :=
-  match cached with
-  | Some p => if memN p used then None else Some (p, cnt, Some p)
-  | None => let n := next_free (length used) (cnt + 1) used in Some (n, n, Some n)
-  end.
+(** [get_block_num] with the counter at [cnt] *)
+Definition alloc (cnt : N) (used : list N) : N := next_free (length used) (cnt + 1) used.
 
 Definition new_block (t n : N) (d : bytes) : cblock := mkCBlock t n 0 0 d None.
-
-(** numbers cached in [PreviousNodeBlock.overload_fields[CanonicalBlock]] / [BundleAgeBlock...] *)
-Record fwd_state : Type := mkFwdState { st_prev : option N; st_age : option N }.
-Definition fresh_state : fwd_state := mkFwdState None None.
 
 (** age = now - creation, a Python int *)
 Definition age_item (now ctime : N) : cbor :=
   if ctime <=? now then CUint (now - ctime) else CNint (ctime - now - 1).
 
-(** * [_do_fwd] on the block list.  None = an exception inside [_do_fwd]: nothing is transmitted. *)
-Definition fwd_blocks (node : eid) (now ctime : N) (st : fwd_state) (bl : list cblock)
-  : fwd_state * option (list cblock) :=
-  let bl1 := remove_alt is_prev true bl in
-  match alloc (st_prev st) 1 (used_nums bl1) with
-  | None => (st, None)
-  | Some (n1, cnt1, sp) =>
-      let st1 := mkFwdState sp (st_age st) in
-      let bl2 := insert_bl (new_block BLOCK_PREV_NODE n1 (encode_prev_node (impl_norm_eid node))) bl1 in
-      if existsb hop_raises bl2 then (st1, None)
-      else
-        let bl3 := map bump_hop bl2 in
-        let bl4 := remove_alt is_age true bl3 in
-        if ctime =? 0 then (st1, Some bl4)
-        else
-          match alloc (st_age st) cnt1 (used_nums bl4) with
-          | None => (st1, None)
-          | Some (n2, _, sa) =>
-              (mkFwdState sp sa, Some (insert_bl (new_block BLOCK_AGE n2 (encode (age_item now ctime))) bl4))
-          end
-  end.
+(** * [_do_fwd] on the block list (when no hop-count block makes it raise) *)
+Definition fwd_blocks (node : eid) (now ctime : N) (bl : list cblock) : list cblock :=
+  let bl1 := remove_all is_prev bl in
+  let n1 := alloc 1 (used_nums bl1) in
+  let bl2 := insert_bl (new_block BLOCK_PREV_NODE n1 (encode_prev_node (impl_norm_eid node))) bl1 in
+  let bl3 := map bump_hop bl2 in
+  let bl4 := remove_all is_age bl3 in
+  if ctime =? 0 then bl4
+  else insert_bl (new_block BLOCK_AGE (alloc n1 (used_nums bl4)) (encode (age_item now ctime))) bl4.
 
 (** [_apply_primary] on a decoded primary block (source / report-to are never None there) *)
 Definition DEFAULT_LIFETIME : N := 3600000.
@@ -171,15 +145,10 @@ Definition apply_primary (now : N) (p : primary) : primary :=
 Definition finish (now : N) (p : primary) (bl : list cblock) : bundle :=
   with_crc_bundle (impl_norm_bundle (mkBundle (apply_primary now p) bl)).
 
-Definition do_fwd_st (node : eid) (now : N) (st : fwd_state) (b : bundle) : fwd_state * option bundle :=
-  match fwd_blocks node now (create_time (prim b)) st (blocks b) with
-  | (st', Some bl) => (st', Some (finish now (prim b) bl))
-  | (st', None) => (st', None)
-  end.
-
-(** forwarding in a fresh process (never fails, [BpFwdProofs.do_fwd_fresh]) *)
+(** the forwarded bundle; its clean encoding [encode_bundle (do_fwd node now b)] is what the convergence
+    layer is given *)
 Definition do_fwd (node : eid) (now : N) (b : bundle) : bundle :=
-  match snd (do_fwd_st node now fresh_state b) with Some o => o | None => b end.
+  finish now (prim b) (fwd_blocks node now (create_time (prim b)) (blocks b)).
 
 (** * The path from the CL callback to the CL sender *)
 
@@ -196,7 +165,7 @@ Inductive rx_outcome : Type :=
 | RxContainerRaises          (* [BundleContainer.reload]: duplicate block number (0 counts as in use) *)
 | RxCrcDrop                  (* [check_all_crc] over the re-encoding fails: dropped silently *)
 | RxOwnSource                (* source = this node: ignored *)
-| RxFwdFailed                (* exception inside [_do_fwd]: delete / NO_ROUTE, nothing transmitted *)
+| RxFwdFailed                (* exception inside [_do_fwd] (hop-count block without data): delete / NO_ROUTE *)
 | RxSent (octets : bytes).   (* handed to the CL *)
 
 (** [check_all_crc]: the primary block is re-encoded from its field values (EIDs through the text
@@ -204,31 +173,25 @@ Inductive rx_outcome : Type :=
 Definition recv_crc_ok (b : bundle) : bool :=
   crc_ok_primary (impl_norm_primary (prim b)) && forallb crc_ok_block (blocks b).
 
-Definition recv_fwd (node : eid) (now : N) (st : fwd_state) (bs : bytes) : fwd_state * rx_outcome :=
+Definition recv_fwd (node : eid) (now : N) (bs : bytes) : rx_outcome :=
   match decode_bundle bs with
-  | None => (st, RxUndecodable)
+  | None => RxUndecodable
   | Some b =>
-      if negb (nodupb (used_nums (blocks b))) then (st, RxContainerRaises)
-      else if negb (recv_crc_ok b) then (st, RxCrcDrop)
-      else if eid_eqb (src (prim b)) node then (st, RxOwnSource)
-      else match do_fwd_st node now st b with
-           | (st', Some out) => (st', RxSent (encode_bundle out))
-           | (st', None) => (st', RxFwdFailed)
-           end
+      if negb (nodupb (used_nums (blocks b))) then RxContainerRaises
+      else if negb (recv_crc_ok b) then RxCrcDrop
+      else if eid_eqb (src (prim b)) node then RxOwnSource
+      else if existsb hop_raises (blocks b) then RxFwdFailed
+      else RxSent (encode_bundle (do_fwd node now b))
   end.
 
-(** a process history: bundles routed "forward", each received at its own clock value *)
-Fixpoint run_hist (node : eid) (st : fwd_state) (h : list (N * bytes)) : list rx_outcome :=
-  match h with
-  | [] => []
-  | (now, bs) :: t => let (st', o) := recv_fwd node now st bs in o :: run_hist node st' t
-  end.
+(** a process history: bundles routed "forward", each received at its own clock value (no state is
+    carried from one to the next) *)
+Definition run_hist (node : eid) (h : list (N * bytes)) : list rx_outcome :=
+  map (fun nb => recv_fwd node (fst nb) (snd nb)) h.
 
 (** * Boolean hypotheses of the theorems *)
 
 Definition lt64 (n : N) : bool := n <? two64.
-Definition opt_lt64 (o : option N) : bool := match o with Some n => lt64 n | None => true end.
-Definition st_okb (st : fwd_state) : bool := opt_lt64 (st_prev st) && opt_lt64 (st_age st).
 
 (** this node's EID: well formed, unchanged by the text conversion, encodable in a BTSD *)
 Definition node_okb (node : eid) : bool :=
@@ -241,15 +204,15 @@ Definition hop_okb (b : cblock) : bool :=
 (** the received bundle as [recv_bundle] lets it through, in the ranges where the model is exact: field
     ranges (after the text conversion of EIDs, which is the identity except for the C02 defect class),
     distinct block numbers none of which is 0 (else [reload] raises), fewer than 2^32 blocks, no hop count
-    at 2^64-1, an administrative payload the implementation can parse *)
-Definition fwd_inb (node : eid) (now : N) (st : fwd_state) (b : bundle) : bool :=
+    at 2^64-1 and no hop-count block without data, an administrative payload the implementation can parse *)
+Definition fwd_inb (node : eid) (now : N) (b : bundle) : bool :=
   wf_primaryb (prim (impl_norm_bundle b)) && forallb wf_cblockb (blocks (impl_norm_bundle b)) &&
   forallb wf_cblockb (blocks b) &&
   impl_admin_ok (impl_norm_bundle b) &&
   nodupb (used_nums (blocks b)) &&
   (N.of_nat (length (blocks b)) <? 4294967296) &&
-  forallb hop_okb (blocks b) &&
-  lt64 now && node_okb node && st_okb st.
+  forallb hop_okb (blocks b) && negb (existsb hop_raises (blocks b)) &&
+  lt64 now && node_okb node.
 
 (** guards that exclude the defect classes *)
 Definition eids_stableb (p : primary) : bool :=
@@ -258,15 +221,11 @@ Definition eids_stableb (p : primary) : bool :=
 Definition payload_stableb (b : bundle) : bool :=
   forallb (fun blk => negb (btype blk =? 1) ||
                       bytes_eqb (btsd (impl_norm_cblock (is_admin (prim b)) blk)) (btsd blk)) (blocks b).
-(** at most one block of the type, and the implementation recognises it *)
-Definition le1_typedb (t : N) (isp : cblock -> bool) (l : list cblock) : bool :=
-  match filter (fun x => btype x =? t) l with
-  | [] => true
-  | [x] => isp x
-  | _ => false
-  end.
-Definition prev_le1b (b : bundle) : bool := le1_typedb BLOCK_PREV_NODE is_prev (blocks b).
-Definition age_le1b (b : bundle) : bool := le1_typedb BLOCK_AGE is_age (blocks b).
+(** every block of type 6 (7) is one the implementation recognises as a Previous Node (Bundle Age) block *)
+Definition prev_parseb (b : bundle) : bool :=
+  forallb (fun x => negb (btype x =? BLOCK_PREV_NODE) || is_prev x) (blocks b).
+Definition age_parseb (b : bundle) : bool :=
+  forallb (fun x => negb (btype x =? BLOCK_AGE) || is_age x) (blocks b).
 (** payload block last, numbered 1 *)
 Definition payload_last_num1b (l : list cblock) : bool :=
   match rev l with pl :: _ => (btype pl =? 1) && (bnum pl =? 1) | [] => false end.
@@ -291,12 +250,12 @@ Definition ren_outcome (o : rx_outcome) : N * bytes :=
 (** flags telling which hypotheses the case satisfies (for the evidence histogram) *)
 Definition case_flags (node : eid) (now : N) (bs : bytes) : list bool :=
   match decode_bundle bs with
-  | Some b => [fwd_inb node now fresh_state b; eids_stableb (prim b); payload_stableb b; prev_le1b b; age_le1b b;
+  | Some b => [fwd_inb node now b; eids_stableb (prim b); payload_stableb b; prev_parseb b; age_parseb b;
                payload_last_num1b (blocks b); negb (create_time (prim b) =? 0); negb (lifetime (prim b) =? 0);
                create_time (prim b) <=? now]
   | None => []
   end.
 
 Definition run_case (c : eid * list (N * bytes)) : list (N * bytes) * list (list bool) :=
-  (map ren_outcome (run_hist (fst c) fresh_state (snd c)),
+  (map ren_outcome (run_hist (fst c) (snd c)),
    map (fun nb => case_flags (fst c) (fst nb) (snd nb)) (snd c)).
